@@ -49,9 +49,11 @@ Log(r) == hist' = Append(hist, r @@ [post |-> Post])
 \* trees: every subset of paths with every content assignment is too many to
 \* enumerate per step; a random tree per step keeps branching at one
 RandSubset(S) == {x \in S : R(BOOLEAN)}
-RandTree == LET ps == RandSubset(Paths)
-                cs == [p \in Paths |-> R(Contents)]
-            IN [p \in ps |-> cs[p]]
+\* (the parameter only keeps TLC from evaluating the definition once as a constant: with no parameter every
+\*  upload of a run got the same tree)
+RandTree(dummy) == LET ps == RandSubset(Paths)
+                       cs == [p \in Paths |-> R(Contents)]
+                   IN [p \in ps |-> cs[p]]
 TreeArg(t) == {[p |-> q.p, c |-> t[q], gen |-> q.gen] : q \in DOMAIN t}
 
 GCreateRepo(r) ==
@@ -172,14 +174,14 @@ GDownload(b, sel) ==
 \* random choice once with \E x \in {R(..)}
 GStep ==
   \/ \E r \in {R(Repos)} : GCreateRepo(r)
-  \/ \E r \in repos, i \in 1..3 : \E t \in {RandTree}, k \in {R(Bulks)} : GUpload(r, t, k)
-  \/ \E r \in repos : \E j \in 0..2 : \E t \in {RandTree}, k \in {R(Bulks)} : GUploadCrash(r, t, k, j)
-  \/ \E r \in repos : \E t \in {RandTree}, k \in {R(Bulks)} : GUploadCrashAfterDesc(r, t, k)
-  \/ \E r \in repos : \E f \in 1..3 : \E t \in {RandTree}, k \in {R(Bulks)} : GUploadFault(r, t, k, f)
-  \/ \E r \in repos : \E b \in {R(VisibleIn(r) \cup {0})} : \E t \in {RandTree}, m \in {R({"sameid", "entries"})} :
+  \/ \E r \in repos, i \in 1..3 : \E t \in {RandTree(hist)}, k \in {R(Bulks)} : GUpload(r, t, k)
+  \/ \E r \in repos : \E j \in 0..2 : \E t \in {RandTree(hist)}, k \in {R(Bulks)} : GUploadCrash(r, t, k, j)
+  \/ \E r \in repos : \E t \in {RandTree(hist)}, k \in {R(Bulks)} : GUploadCrashAfterDesc(r, t, k)
+  \/ \E r \in repos : \E f \in 1..3 : \E t \in {RandTree(hist)}, k \in {R(Bulks)} : GUploadFault(r, t, k, f)
+  \/ \E r \in repos : \E b \in {R(VisibleIn(r) \cup {0})} : \E t \in {RandTree(hist)}, m \in {R({"sameid", "entries"})} :
         b # 0 /\ GReUpload(r, b, t, m)
-  \/ \E r \in repos : \E t \in {RandTree}, t2 \in {RandTree} : GUploadRace(r, t, t2)
-  \/ "keys" \in Ops /\ \E r \in repos, i \in 1..2 : \E t \in {RandTree}, skip \in {R(BOOLEAN)} :
+  \/ \E r \in repos : \E t \in {RandTree(hist)}, t2 \in {RandTree(hist)} : GUploadRace(r, t, t2)
+  \/ "keys" \in Ops /\ \E r \in repos, i \in 1..2 : \E t \in {RandTree(hist)}, skip \in {R(BOOLEAN)} :
         \E keys \in {[j \in 1..R(0..4) |-> R(Paths)]} : GUploadKeys(r, t, keys, skip)
   \/ "label" \in Ops /\ \E r \in repos, i \in 1..LabelW : \E b \in {R(VisibleIn(r) \cup {0})} : \E n \in {R(Labels)} :
         b # 0 /\ GSetLabel(r, n, b)
